@@ -61,6 +61,11 @@ def run(facts, tier):
     if it.unknown:
         res.notes.append("unknown mutating methods treated conservatively: %s" % sorted(set(it.unknown)))
     c06.r06_3(facts, res, "R07-2")
+    # document order of an edited document: the order vector is only as good as the indices used to update it
+    import staleidx
+    from props import c14
+    staleidx.rule(facts, res, "R07-3", lambda f: f["crate"] in ("xml_info", "xml_dom"), floor=7)
+    c14.c14_8(facts, res, "R07-4")
     res.functions_analysed = len(fns)
     return res
 
